@@ -461,6 +461,14 @@ class Prop:
                     for new in (0, 1):
                         case('disconnect_race_%s_%s' % (nkind, sname), groups, statics,
                              pre + [('discrace', a1, old, new), ('disconnect', a1, new), ('disconnect', a1, 1 - new), ('connect', a1, 1)])
+        # UpdatePeer that changes nothing but the address families (a neighbour configured with two or three families is
+        # updated by a request that names none: back to the address family alone), in every session state; whether the FSM
+        # that sends the next OPEN holds the new list is read from the FSM itself (oracle-only observation)
+        for extra in ([IPV6], [IPV4_VPN], [IPV4_LU], [IPV6, IPV4_VPN], [IPV4_LU, IPV6, IPV4_VPN]):
+            fams = [(IPV4, 0)] + [(x, 0) for x in extra]
+            for sname, pre in states.items():
+                case('update_families_only_static_%s' % sname, [], [dict(addr=a1, params=P(families=fams), group=None)],
+                     pre + [('update', a1, same)] + tail)
         # UpdatePeer under a confederation: external, member and internal neighbours
         for peer_as in (65001, 65009, 65000):
             for nkind in ('dynamic', 'static'):
